@@ -915,4 +915,316 @@ Section DebtProgs.
     - eapply (safeD_weaken _ _ _ _ (Peq d Tr)); [intros ? ? ? ? X; apply Peq_Pdq; exact X | apply d_claim_aff_loop].
     - eapply (safeD_weaken _ _ _ _ (Peq d Tr)); [intros ? ? ? ? X; apply Peq_Pdq; exact X | apply d_release_aff_loop].
   Qed.
+
+  (* ================================================================== the same programs without any bound on the
+     number of conflicts: a roll-back may then be abandoned (as in the Go code after cf_retries attempts), so the
+     debt need not return to its initial value, but every write is still matched by the debt (dstep): this is
+     all the ledger needs, hence handles never under-count in ANY reachable state. *)
+  Definition PT {A} : nat -> ctr -> hist -> A -> Prop := fun _ _ _ _ => True.
+  Definition dsub (d : ctr) (h c n : N) : ctr :=
+    fun h' c' => if N.eqb h' h && N.eqb c' c then (d h' c' - n)%N else d h' c'.
+  Definition Pdec (d : ctr) (h c n : N) {A} : nat -> ctr -> hist -> A -> Prop :=
+    fun _ d' _ _ => forall h' c', (d h' c' <= d' h' c' + (if N.eqb h' h && N.eqb c' c then n else 0))%N.
+
+  Lemma u_dec_handle fuel : forall nb d H h c n cached,
+    (0 < n)%N -> (n <= d h c)%N ->
+    match cached with Some (m, rev) => knownh H h m rev | None => True end ->
+    sD nb d H (dec_handle false fuel h c n cached) (Pdec d h c n).
+  Proof.
+    induction fuel as [|f IH]; intros nb d H h c n cached POS DHC CK; simpl.
+    { intros h' c'. lia. }
+    assert (HDEL : forall m m', (forall c', hcount m' c' = (hcount m c' - (if N.eqb c' c then n else 0))%N) ->
+                                (n <= hcount m c)%N -> hdelta h m m' d (dsub d h c n)).
+    { intros m m' HC LE. split.
+      - intros c'. rewrite HC. unfold dsub. rewrite N.eqb_refl. simpl. destruct (N.eqb c' c) eqn:E; [|lia].
+        apply N.eqb_eq in E; subst. lia.
+      - intros h' c' NE. unfold dsub. destruct (N.eqb h' h) eqn:E; auto. apply N.eqb_eq in E; congruence. }
+    assert (DONE : forall nb1 H1 (x : res unit), sD nb1 (dsub d h c n) H1 (Ret x) (Pdec d h c n)).
+    { intros nb1 H1 x. apply safeD_ret. intros h' c'. unfold dsub. destruct (N.eqb h' h && N.eqb c' c); lia. }
+    assert (SAME : forall nb1 H1 (x : res unit), sD nb1 d H1 (Ret x) (Pdec d h c n)).
+    { intros nb1 H1 x. apply safeD_ret. intros h' c'. lia. }
+    assert (TRY : forall nb1 H1 m rev, knownh H1 h m rev ->
+              sD nb1 d H1 (match hdec m c n with
+                           | None => match cached with
+                                     | Some _ => if false then Ret (inr EOther) else dec_handle false f h c n None
+                                     | None => Ret (inr EOther) end
+                           | Some [] =>
+                               w <- delete_handle h rev ;;
+                               match w with
+                               | inl _ => Ret (inl tt)
+                               | inr EConflict => dec_handle false f h c n None
+                               | inr ENotFound => Ret (inl tt)
+                               | inr e => Ret (inr e)
+                               end
+                           | Some m' =>
+                               w <- update_handle h m' rev ;;
+                               match w with
+                               | inl _ => Ret (inl tt)
+                               | inr EConflict => dec_handle false f h c n None
+                               | inr e => Ret (inr e)
+                               end
+                           end) (Pdec d h c n)).
+    { intros nb1 H1 m rev KH.
+      destruct (hdec m c n) as [m'|] eqn:HD.
+      - pose proof (hdec_Some_ge _ _ _ _ HD) as GE.
+        destruct (hdec_spec m c n (proj2 KH) POS GE) as (m2 & HD2 & SM & HC). rewrite HD in HD2. inversion HD2; subst m2.
+        destruct m' as [|x m''].
+        + dsb d_delete_handle; [exact KH | apply HDEL; auto |].
+          destruct r as [u|e]; [subst; apply DONE|]. destruct P as [-> _].
+          destruct e; try apply SAME. apply IH; auto.
+        + dsb d_update_handle; [exact KH | exact SM | apply HDEL; auto |].
+          destruct r as [u|e]; [subst; apply DONE|]. destruct P as [-> _].
+          destruct e; try apply SAME. apply IH; auto.
+      - destruct cached; [apply IH; auto | apply SAME]. }
+    destruct cached as [[m rev]|].
+    - eapply safeD_bind with (P := fun nb' d' H' r => d' = d /\ H' = H /\ r = inl (m, rev)).
+      { apply safeD_ret. auto. }
+      cbv beta. intros nb1 d1 H1 r LE E (-> & -> & ->). apply TRY; auto.
+    - dsb d_get_handle. destruct P as [-> P]. destruct r as [[m rev]|e]; [|apply SAME].
+      destruct P as [KH _]. apply TRY; auto.
+  Qed.
+
+  Lemma u_assign_from_block nb d H b rev c num h tag host ac :
+    known2 H c b rev -> sD nb d H (assign_from_block cf (b, rev) c num h tag host ac) PT.
+  Proof.
+    intros KN. unfold assign_from_block. rewrite F1, F3.
+    destruct (blk_auto_assign b num h tag ac host) as [[b' ips]|] eqn:AA; [|apply safeD_ret; exact I].
+    destruct ips as [|a0 ips']; [apply safeD_ret; exact I|].
+    remember (a0 :: ips') as ips.
+    set (n := N.of_nat (length ips)).
+    assert (POS : (0 < n)%N) by (unfold n; subst ips; simpl; lia).
+    destruct KN as (KH & IB & CB & LB).
+    destruct (blk_auto_assign_trans _ _ _ _ _ _ _ _ AA) as [BT _].
+    pose proof (blk_auto_assign_len _ _ _ _ _ _ _ _ AA) as LEN.
+    dsb d_inc_handle. destruct r as [u|e]; [|apply safeD_ret; exact I]. subst d0.
+    assert (KN0 : known2 H0 c b rev) by (split; auto).
+    assert (BD : bdelta c (count_in_block b) (count_in_block b') (dadd d h c n) d).
+    { split.
+      - intros h'. rewrite (blk_auto_assign_count _ _ _ _ _ _ _ _ h' AA IB). unfold dadd, n.
+        rewrite N.eqb_refl, andb_true_r. destruct (N.eqb h' h); lia.
+      - intros h' c' NE. unfold dadd. destruct (N.eqb c' c) eqn:E'; [apply N.eqb_eq in E'; congruence|].
+        rewrite andb_false_r. reflexivity. }
+    dsbu KN0 BT LEN BD.
+    destruct r as [[b2 rev2]|e]; [apply safeD_ret; exact I|]. subst d0.
+    dsb (u_dec_handle (cf_retries cf) nb1 (dadd d h c n)); [exact POS | unfold dadd; rewrite !N.eqb_refl; simpl; lia | exact I |].
+    apply safeD_ret; exact I.
+  Qed.
+
+  Ltac uret := cbv iota; apply safeD_ret; exact I.
+
+  Lemma u_assign_retry fuel : forall nb d H b rev c rem h tag host,
+    known2 H c b rev -> sD nb d H (assign_retry cf fuel (b, rev) c rem h tag host) PT.
+  Proof.
+    induction fuel as [|f IH]; intros nb d H b rev c rem h tag host KN; simpl; [exact I|].
+    dsb u_assign_from_block; [exact KN|]. destruct r as [ips|e]; [uret|].
+    destruct e; try uret.
+    dsb d_get_block. destruct P0 as [-> P0]. destruct r as [[b' rev']|e]; [|uret].
+    apply IH. exact P0.
+  Qed.
+
+  Lemma u_na_try fuel : forall nb d H c rem h tag host, sD nb d H (na_try cf fuel c rem h tag host) PT.
+  Proof.
+    induction fuel as [|f IH]; intros nb d H c rem h tag host; simpl; [exact I|].
+    dsb d_get_block. destruct P as [-> P]. destruct r as [[b rev]|e]; [|uret].
+    dsb u_assign_from_block; [exact P|]. destruct r as [ips|e]; [uret|].
+    destruct e; try uret. apply IH.
+  Qed.
+
+  Lemma u_na_loop order : forall nb d H ips num h tag host, sD nb d H (na_loop cf order ips num h tag host) PT.
+  Proof.
+    induction order as [|c rest IH]; intros nb d H ips num h tag host; simpl; [exact I|].
+    dif; [uret|]. dsb u_na_try. apply IH.
+  Qed.
+
+  Lemma u_aa_loop fuel : forall nb d H ips rem_aff owned num h tag host,
+    sD nb d H (aa_loop_v cf fx fuel ips rem_aff owned num h tag host) PT.
+  Proof.
+    induction fuel as [|f IH]; intros nb d H ips rem_aff owned num h tag host; simpl.
+    - dif; uret.
+    - dif; [uret|].
+      dsb d_find_or_claim. destruct P as [-> P]. destruct r as [[[[[b rev] c] newly]|e] rem'].
+      + dsb u_assign_retry; [exact P|]. apply IH.
+      + destruct e; try uret. dif; [|uret]. dsb u_na_loop. uret.
+  Qed.
+
+  Lemma u_auto_assign nb d H host h tag num : sD nb d H (auto_assign_v cf fx host h tag num) PT.
+  Proof.
+    unfold auto_assign_v. apply safeD_act; [exact I|]. intros H' rs E HO OK EN NB. exists d.
+    split; [destruct rs; reflexivity|]. destruct rs; try uret. apply u_aa_loop.
+  Qed.
+
+  Lemma u_assign_ip_loop fuel : forall nb d H host h tag a, sD nb d H (assign_ip_loop_v cf fx fuel host h tag a) PT.
+  Proof.
+    induction fuel as [|f IH]; intros nb d H host h tag a; simpl; [exact I|].
+    rewrite F2, F3.
+    set (c := block_of cf a).
+    assert (CONT : forall nb1 d1 H1 b brev, known2 H1 c b brev ->
+      sD nb1 d1 H1
+         (match blk_assign b a h tag (cf_strict cf) host with
+          | inr e => Ret (ResErr (nz e))
+          | inl b' =>
+              i <- inc_handle (cf_retries cf) h c 1 ;;
+              match i with
+              | inr _ => Ret (ResErr EOther)
+              | inl _ =>
+                  w <- update_block c b' brev ;;
+                  match w with
+                  | inl _ => Ret (ResErr ENone)
+                  | inr EConflict =>
+                      u_ <- dec_handle false (cf_retries cf) h c 1 None ;; assign_ip_loop_v cf fx f host h tag a
+                  | inr e => u_ <- dec_handle false (cf_retries cf) h c 1 None ;; Ret (ResErr (nz e))
+                  end
+              end
+          end) PT).
+    { intros nb1 d1 H1 b brev KN.
+      destruct (blk_assign b a h tag (cf_strict cf) host) as [b'|e] eqn:BA; [|uret].
+      destruct KN as (KH & IB & CB & LB).
+      assert (BT : btrans b b') by (destruct (blk_assign_trans _ _ _ _ _ _ _ BA) as [[X _]|[X _]]; exact X).
+      destruct (blk_assign_count _ _ _ _ _ _ _ h BA IB (ordinal_in_block b a CB LB)) as [LEN _].
+      dsb d_inc_handle. destruct r as [u|e]; [|uret]. subst d0.
+      assert (KN0 : known2 H0 c b brev) by (split; auto).
+      assert (BD : bdelta c (count_in_block b) (count_in_block b') (dadd d1 h c 1) d1).
+      { split.
+        - intros h'. destruct (blk_assign_count _ _ _ _ _ _ _ h' BA IB (ordinal_in_block b a CB LB)) as [_ CNT].
+          rewrite CNT. unfold dadd. rewrite N.eqb_refl, andb_true_r. destruct (N.eqb h' h); lia.
+        - intros h' c' NE. unfold dadd. destruct (N.eqb c' c) eqn:E'; [apply N.eqb_eq in E'; congruence|].
+          rewrite andb_false_r. reflexivity. }
+      dsbu KN0 BT LEN BD. destruct r as [[b2 rev2]|e]; [uret|]. subst d0.
+      assert (DEC : forall X : prog result, (forall nb3 d3 H3, sD nb3 d3 H3 X PT) ->
+                sD nb2 (dadd d1 h c 1) H2 (u_ <- dec_handle false (cf_retries cf) h c 1 None ;; X) PT).
+      { intros X SX. dsb (u_dec_handle (cf_retries cf) nb2 (dadd d1 h c 1)); [lia | unfold dadd; rewrite !N.eqb_refl; simpl; lia | exact I |].
+        apply SX. }
+      destruct e; try (apply DEC; intros; uret).
+      apply DEC. intros. apply IH. }
+    dsb d_get_block. destruct P as [-> P]. destruct r as [[b brev]|e].
+    - apply CONT; auto.
+    - destruct e; try uret.
+      dsb d_get_pending_aff. destruct P0 as [-> _]. destruct r as [[st affrev]|e].
+      + dsb d_claim_affine_block. destruct P0 as [-> P0]. destruct r as [[b brev]|e].
+        * apply CONT; exact P0.
+        * destruct e; try uret. apply IH.
+      + destruct e; try uret. apply IH.
+  Qed.
+
+  Lemma u_dec_all l : forall nb d H c cache,
+    Forall (fun p => (0 < snd p)%nat) l -> (forall h', (hsum l h' <= d h' c)%N) -> cache_ok H cache ->
+    sD nb d H (dec_all cf l c cache) PT.
+  Proof.
+    induction l as [|[h n] t IH]; intros nb d H c cache POS DD CK; simpl; [exact I|].
+    inversion POS as [|? ? PN PT']; subst. simpl in PN. rewrite F3.
+    dsb (u_dec_handle (cf_retries cf) nb d H h c (N.of_nat n) (find_cached cache h)).
+    - lia.
+    - specialize (DD h). simpl in DD. rewrite N.eqb_refl in DD. lia.
+    - destruct (find_cached cache h) as [[m rev]|] eqn:FC; [eapply CK; eauto | exact I].
+    - apply IH; auto.
+      + intros h'. specialize (DD h'). specialize (P h' c). simpl in DD. rewrite N.eqb_refl, andb_true_r in P.
+        rewrite (N.eqb_sym h h') in DD. destruct (N.eqb h' h); lia.
+      + eapply cache_ok_mono; eauto.
+  Qed.
+
+  Lemma u_release_loop fuel : forall nb d H c opts hint cache,
+    wf_rel c opts -> cache_ok H cache -> sD nb d H (release_loop cf fuel c opts hint cache) PT.
+  Proof.
+    induction fuel as [|f IH]; intros nb d H c opts hint cache WF CK; simpl; [exact I|].
+    dsb d_get_block. destruct P as [-> P]. destruct r as [[b brev]|e]; [|destruct e; uret].
+    destruct (blk_release b opts) as [[[b' un] cnt]|e] eqn:BR; [|uret].
+    dif; [uret|].
+    destruct P as (KH & IB & CB & LB).
+    assert (WF' : forall a, In a (map fst opts) -> (bk_cidr b <= a)%N) by (rewrite CB; exact WF).
+    assert (CNT : forall h', (count_in_block b' h' + hsum cnt h' = count_in_block b h')%N).
+    { intros h'. destruct (blk_release_count _ _ _ _ _ h' BR IB WF') as (_ & _ & X); exact X. }
+    destruct (blk_release_count _ _ _ _ _ 0%N BR IB WF') as (LEN & POS & _).
+    pose proof (blk_release_trans _ _ _ _ _ BR) as BT.
+    assert (KN0 : known2 H0 c b brev) by (split; auto).
+    eapply safeD_bind with (P := fun _ d' H' (r : res unit) => match r with inl _ => d' = dplus d c cnt | inr _ => d' = d end).
+    { destruct (blk_empty b' && optN_eqb (bk_aff b') None) eqn:EMP.
+      - apply andb_prop in EMP. destruct EMP as [EM _].
+        eapply d_delete_block; [exact KN0|]. split.
+        + intros h'. unfold dplus. rewrite N.eqb_refl. pose proof (CNT h') as X. rewrite (count_empty b' h' EM) in X. lia.
+        + intros h' c' NE. unfold dplus. destruct (N.eqb c' c) eqn:E1; auto. apply N.eqb_eq in E1; congruence.
+      - assert (BD : bdelta c (count_in_block b) (count_in_block b') d (dplus d c cnt)).
+        { split.
+          - intros h'. unfold dplus. rewrite N.eqb_refl. pose proof (CNT h'). lia.
+          - intros h' c' NE. unfold dplus. destruct (N.eqb c' c) eqn:E1; auto. apply N.eqb_eq in E1; congruence. }
+        dsbu KN0 BT LEN BD. destruct r as [[b2 rev2]|e]; [destruct P as [-> _]; apply safeD_ret; reflexivity | subst; apply safeD_ret; reflexivity]. }
+    cbv beta. intros nb1 d1 H1 r LE1 E1 P1. destruct r as [u|e].
+    - subst d1. dsb (u_dec_all (order_by hint cnt) nb1 (dplus d c cnt) H1 c cache).
+      + apply order_by_pos; exact POS.
+      + intros h'. unfold dplus. rewrite N.eqb_refl, hsum_order_by. lia.
+      + eapply cache_ok_mono; [|exact CK]. eapply Cas.hext_trans; eauto.
+      + uret.
+    - subst d1. destruct e; try uret.
+      apply IH; [exact WF | eapply cache_ok_mono; [|exact CK]; eapply Cas.hext_trans; eauto].
+  Qed.
+
+  Lemma u_release_ips nb d H opts hint : wf_op (OpRelease opts hint) -> sD nb d H (release_ips cf opts hint) PT.
+  Proof.
+    intros WF. unfold release_ips. destruct opts as [|[a oh] t]; [uret|].
+    simpl in WF. dif.
+    - apply safeD_act; [exact I|]. intros H' rs E HO OK EN NB. exists d. split; [destruct rs; reflexivity|].
+      destruct rs; try uret.
+      apply u_release_loop; [exact WF | apply cache_ok_listed; [exact HO | exact OK]].
+    - apply u_release_loop; [exact WF | apply cache_ok_nil].
+  Qed.
+
+  Lemma u_rbh_one fuel : forall nb d H c h, sD nb d H (rbh_one_w cf true fuel c h) PT.
+  Proof.
+    induction fuel as [|f IH]; intros nb d H c h; simpl; [exact I|].
+    dsb d_get_block. destruct P as [-> P]. destruct r as [[b brev]|e]; [|destruct e; uret].
+    destruct (blk_release_by_handle b h) as [b' n] eqn:BR.
+    destruct n as [|n]; [uret|].
+    destruct P as (KH & IB & CB & LB).
+    assert (CNT : forall h', (count_in_block b' h' + (if N.eqb h' h then N.of_nat (S n) else 0) = count_in_block b h')%N).
+    { intros h'. destruct (blk_release_by_handle_count _ _ _ _ h' BR IB) as [_ X]; exact X. }
+    destruct (blk_release_by_handle_count _ _ _ _ 0%N BR IB) as [LEN _].
+    pose proof (blk_release_by_handle_trans _ _ _ _ BR) as BT.
+    assert (KN0 : known2 H0 c b brev) by (split; auto).
+    set (m := N.of_nat (S n)) in *.
+    assert (AFTER : forall nb1 H1,
+              sD nb1 (dadd d h c m) H1 (u_ <- dec_handle (cf_stale_cache cf) (cf_retries cf) h c m None ;; Ret (inl tt)) (@PT (res unit))).
+    { intros nb1 H1. rewrite F3. dsb (u_dec_handle (cf_retries cf) nb1 (dadd d h c m)); [unfold m; lia | unfold dadd; rewrite !N.eqb_refl; simpl; lia | exact I |].
+      uret. }
+    destruct (blk_empty b' && optN_eqb (bk_aff b') None) eqn:EMP.
+    - apply andb_prop in EMP. destruct EMP as [EM _].
+      dsb (d_delete_block nb0 d (dadd d h c m) H0 c b brev KN0).
+      { split.
+        - intros h'. unfold dadd. rewrite N.eqb_refl, andb_true_r. pose proof (CNT h') as X.
+          rewrite (count_empty b' h' EM) in X. destruct (N.eqb h' h); lia.
+        - intros h' c' NE. unfold dadd. destruct (N.eqb c' c) eqn:E1; [apply N.eqb_eq in E1; congruence|].
+          rewrite andb_false_r. reflexivity. }
+      destruct r as [u|e]; [subst; apply AFTER|]. subst.
+      destruct e; try uret. apply IH.
+    - assert (BD : bdelta c (count_in_block b) (count_in_block b') d (dadd d h c m)).
+      { split.
+        - intros h'. unfold dadd. rewrite N.eqb_refl, andb_true_r. pose proof (CNT h'). destruct (N.eqb h' h); lia.
+        - intros h' c' NE. unfold dadd. destruct (N.eqb c' c) eqn:E1; [apply N.eqb_eq in E1; congruence|].
+          rewrite andb_false_r. reflexivity. }
+      dsbu KN0 BT LEN BD. destruct r as [[b2 rev2]|e]; [destruct P as [-> _]; apply AFTER|]. subst.
+      destruct e; try uret. apply IH.
+  Qed.
+
+  Lemma u_rbh_blocks cs : forall nb d H h, sD nb d H (rbh_blocks_w cf true cs h) PT.
+  Proof.
+    induction cs as [|c t IH]; intros nb d H h; simpl; [exact I|].
+    dsb u_rbh_one. destruct r; [apply IH | uret].
+  Qed.
+
+  Lemma u_release_by_handle nb d H h hint : sD nb d H (release_by_handle_w cf true h hint) PT.
+  Proof.
+    unfold release_by_handle_w. dsb d_get_handle. destruct r as [[m rev]|e]; [apply u_rbh_blocks | uret].
+  Qed.
+
+  Lemma to_PT {A} nb d H (p : prog A) Q : sD nb d H p Q -> sD nb d H p PT.
+  Proof. apply safeD_weaken. intros; exact I. Qed.
+
+  Theorem u_compile nb d H host o : wf_op o -> sD nb d H (compile_w cf fx true host o) PT.
+  Proof.
+    intros WF. destruct o; unfold compile_w; cbv beta iota.
+    - apply u_auto_assign.
+    - apply u_assign_ip_loop.
+    - apply u_release_ips; auto.
+    - apply u_release_by_handle.
+    - eapply to_PT. apply d_claim_aff_loop.
+    - eapply to_PT. apply d_release_aff_loop.
+  Qed.
 End DebtProgs.
